@@ -38,7 +38,8 @@ def run_isolated(fn, args, timeout=60):
         code = 0
         try:
             os.close(r)
-            faulthandler.dump_traceback_later(timeout, exit=True)
+            # (no faulthandler timer here: re-arming it in a forked child whose parent had one armed deadlocks;
+            #  the parent enforces the deadline with SIGKILL)
             try:
                 res = ("ok", fn(*args))
             except BaseException as e:  # noqa
@@ -52,7 +53,7 @@ def run_isolated(fn, args, timeout=60):
             os._exit(code)
     os.close(w)
     chunks = []
-    deadline = time.time() + timeout + 5
+    deadline = time.time() + timeout
     with os.fdopen(r, "rb") as f:
         while True:
             left = deadline - time.time()
@@ -84,8 +85,11 @@ def _load_prop(pid):
 
 def _work(pid, seed, tier, indices, mode):
     """Worker: execute a chunk of runs, aggregate locally."""
-    faulthandler.dump_traceback_later(int(os.environ.get("VERIF_CHUNK_TIMEOUT", "600")), exit=True)
     prop = _load_prop(pid)
+    from . import lib as _lib
+    _lib.load(with_numpy=getattr(prop, "WITH_NUMPY", False))   # template state: library imported, no operation executed yet
+    if not getattr(prop, "ISOLATE", False):
+        faulthandler.dump_traceback_later(int(os.environ.get("VERIF_CHUNK_TIMEOUT", "600")), exit=True)
     agg = {"n": 0, "sigs": set(), "probes": {}, "faults": {}, "steps": 0, "samples": [], "viols": [], "stats": {},
            "errors": []}
     isolate = getattr(prop, "ISOLATE", False)
